@@ -149,7 +149,7 @@ class Report:
 
     def add_bounded(self, name, bound, evaluations, failures, nontrivial=None):
         self.bounded.append({"name": name, "bound": bound, "evaluations": evaluations,
-                             "failures": failures[:5], "n_failures": len(failures),
+                             "failures": failures[:200], "n_failures": len(failures),
                              "distinct_nontrivial": nontrivial if nontrivial is not None else evaluations})
 
     # -------------------------------------------------------------------------- finish
